@@ -4,11 +4,12 @@
    sub-values are the leaves. *)
 From Coq Require Import SpecFloat ZifyBool ZifyNat ZifyN.
 Require Import Base Value Float PrintOptions Printer ParseOptions Utf8 Reader Scan Num NumberOps Parser Depth.
-Require Import ReaderProofs ScanProofs TextProofs TokenProofs NumTokenProofs CharStrProofs DepthProofs RoundtripProofs.
+Require Import ReaderProofs ScanProofs TextProofs TokenProofs NumTokenProofs CharStrProofs DepthProofs RoundtripProofs BytesLayout.
 
 Inductive lay :=
 | LAtom (v : value)                               (* the printer's text of v, any v *)
 | LSeq (vec : bool) (b : body)                    (* "(" body ")"  or  "#(" body ")" *)
+| LBytes (p0 : bytes) (os : olay) (cp : bytes)    (* "#u8" trivia "(" octets, each after its trivia, trivia ")" *)
 with body :=
 | BEnd (cp : bytes)                               (* trivia, then the closing parenthesis *)
 | BDot (p1 p2 : bytes) (t : lay) (cp : bytes)     (* trivia "." trivia tail trivia *)
@@ -21,6 +22,7 @@ Fixpoint lval (l : lay) : value :=
   match l with
   | LAtom v => v
   | LSeq vec b => if vec then Vector (bitems b) else build (bitems b) (btail b)
+  | LBytes _ os _ => Bytes (map snd os)
   end
 with bitems (b : body) : list value :=
   match b with BItem _ e b' => lval e :: bitems b' | _ => [] end
@@ -32,6 +34,7 @@ Fixpoint ldepth (l : lay) : nat :=
   match l with
   | LAtom v => rdepth v
   | LSeq _ b => S (bdepth b)
+  | LBytes _ _ _ => 0
   end
 with bdepth (b : body) : nat :=
   match b with
@@ -69,6 +72,7 @@ Section Trivia.
     match l with
     | LAtom v => txt v
     | LSeq vec b => (if vec then [35; 40] else [40]) ++ btxt b ++ [41]
+    | LBytes p0 os cp => 35 :: 117 :: 56 :: p0 ++ 40 :: olay_text os ++ cp ++ [41]
     end
   with btxt (b : body) : bytes :=
     match b with
@@ -84,6 +88,7 @@ Section Trivia.
     match l with
     | LAtom v => rt_ok v
     | LSeq vec b => bok vec true b
+    | LBytes p0 os cp => trivia p0 /\ olay_ok true os /\ trivia cp
     end
   with bok (vec first : bool) (b : body) {struct b} : Prop :=
     match b with
@@ -109,12 +114,13 @@ Section Trivia.
   Lemma ltxt_head l : lok l ->
     exists b t, ltxt l = b :: t /\ starts_datum b /\ is_closer b = false /\ (b = 46 -> exists v, l = LAtom v).
   Proof.
-    destruct l as [v|vec b]; intros Hok.
+    destruct l as [v|vec b|p0 os cp]; intros Hok.
     - destruct (txt_head ryu alpha std_parse v Hok) as (b & t & E & Hs & Hc & _).
       exists b, t. repeat split; auto; try apply Hs. intros _. eexists; reflexivity.
     - destruct vec; cbn [ltxt app].
       + exists 35, (40 :: btxt b ++ [41]). repeat split; try reflexivity; discriminate.
       + exists 40, (btxt b ++ [41]). repeat split; try reflexivity; discriminate.
+    - cbn [ltxt]. eexists 35, _. repeat split; try reflexivity; discriminate.
   Qed.
 
   Lemma ltxt_nonempty l : lok l -> (1 <= length (ltxt l))%nat.
@@ -133,12 +139,15 @@ Section Trivia.
                at_bytes r1 more /\ rk r1 = rk r.
   Proof.
     intros HP f r D acc pre more Hpre Hok HD HD' Hf Ha Hm.
-    destruct e as [v|vec b].
-    - exact (elem_step ryu alpha fast std_parse v (proj1 (next_value_reads_text ryu alpha fast std_parse v))
-               f r D acc pre more Hpre Hok HD HD' Hf Ha Hm).
-    - unfold K in Hf. destruct (ltxt_head (LSeq vec b) Hok) as (c & t & E & Hst & Hcl & H46).
+    assert (Hna : (forall v, e <> LAtom v) ->
+      exists r1, parse_list (S f) 41 acc (mkp r D) = parse_list f 41 (acc ++ [lval e]) (mkp r1 D) /\
+                 at_bytes r1 more /\ rk r1 = rk r); [|destruct e as [v|vec b|p0 os cp]; [|apply Hna; discriminate|apply Hna; discriminate]].
+    2:{ exact (elem_step ryu alpha fast std_parse v (proj1 (next_value_reads_text ryu alpha fast std_parse v))
+               f r D acc pre more Hpre Hok HD HD' Hf Ha Hm). }
+    intros Hnot.
+    - unfold K in Hf. destruct (ltxt_head e Hok) as (c & t & E & Hst & Hcl & H46).
       assert (E46 : (c =? 46) = false).
-      { destruct (c =? 46) eqn:E46; [|reflexivity]. apply N.eqb_eq in E46. destruct (H46 E46) as [v Hv]. discriminate Hv. }
+      { destruct (c =? 46) eqn:E46; [|reflexivity]. apply N.eqb_eq in E46. destruct (H46 E46) as [v Hv]. exfalso. exact (Hnot v Hv). }
       pose proof Ha as Ha'. rewrite E in Ha'. cbn [app] in Ha'.
       rewrite parse_list_S.
       destruct (ws_pre alpha std_parse f r pre c (t ++ more) ltac:(lia) Hpre Ha' Hst) as (r0 & E0 & Ha0 & Hp0 & Hk0).
@@ -288,11 +297,27 @@ Section Trivia.
       exists r3. split; [reflexivity|]. split; [assumption|congruence].
   Qed.
 
+  Lemma PL_bytes p0 os cp : PL (LBytes p0 os cp).
+  Proof.
+    intros fuel r D pre rest Hpre Hok HD HD' Hf Ha Hr.
+    destruct fuel as [|f]; [unfold K in Hf; lia|]. unfold K in Hf.
+    cbn [lok ldepth ltxt lval] in *. destruct Hok as (Hp0 & Hos & Hcp).
+    cbn [app length] in Ha, Hf. rewrite !app_length in Hf. cbn [length] in Hf. rewrite !app_length in Hf. cbn [length] in Hf.
+    destruct (next_value_at alpha fast std_parse f r D pre 35 _ ltac:(lia) Hpre Ha starts_35) as (r0 & Ha0 & Hp0' & Hk0 & Hnv).
+    destruct (tok_bytevec alpha fast std_parse f r0 ((p0 ++ 40 :: olay_text os ++ cp ++ [41]) ++ rest) Ha0 Hp0') as (r1 & E1 & Ha1 & Hk1).
+    rewrite (Hnv _ _ E1). cbn [after_token].
+    rewrite <- !app_assoc in Ha1. cbn [app] in Ha1. rewrite <- !app_assoc in Ha1. cbn [app] in Ha1.
+    destruct (parse_byte_list_lay fast std_parse f r1 p0 os cp rest Hp0 Hos Hcp ltac:(lia) Ha1) as (r2 & E2 & Ha2 & Hk2).
+    rewrite (pbind_eq _ _ _ _ _ (liftR_ok _ r1 D _ _ E2)).
+    exists r2. split; [reflexivity|]. split; [assumption|congruence].
+  Qed.
+
   Theorem reads_layout : (forall l, PL l) /\ (forall b, PB b).
   Proof.
     apply lay_body_ind.
     - apply PL_atom.
     - intros vec b Hb. apply PL_seq. exact Hb.
+    - apply PL_bytes.
     - apply PB_end.
     - intros p1 p2 t Ht cp. apply PB_dot. exact Ht.
     - intros p e He b Hb. apply PB_item; assumption.
